@@ -56,6 +56,10 @@ def run(ctx):
   from . import C02, C04
   C02.initial_values(ctx)
   C04.tearfree_sketchy(ctx)
+  # the FD root of Distributed Shampoo continues the sketch of ITS statistic: statistic, exponent, padding start and
+  # previous sketch are taken from the same replica slot and the same list position
+  from . import C13
+  C13.axis_names(ctx)
 
 
 def thin_svd(ctx):
@@ -706,6 +710,21 @@ def tearfree_sketchy(ctx):
                ctx.loc(fi), sample='(l\'^2 + t\' + eps)^(-1/(2 ndim))')
       else:
         ctx.ob('C09.R3', fi.short, f'inv_eigvals is a power {tag}', False, 'inv_eigvals is not base ** exponent', ctx.loc(fi))
+      # the ridge inside the powers: options.epsilon, scaled - under relative_epsilon - by the largest retained
+      # (undeflated) eigenvalue max(l'^2 + t'), the same quantity for all stored roots
+      eps0 = ev.attr(opts, 'epsilon')
+      want_eps = [eps0]
+      if rel:
+        want_eps = [spec_term(ev, src, dict(env, l=l_new, t=t_new, eps0=eps0))
+                    for src in ('jnp.max(l * l + t) * eps0', 'jnp.max(s[:k] ** 2 + tail * beta) * eps0')]
+      powers = [('inv_eigvals', pp), ('inv_tail', power_parts(rf['inv_tail']))] + ([('svd_result_s', power_parts(rf['svd_result_s']))] if ekfac else [])
+      for nm, parts_ in powers:
+        if parts_ is None:
+          continue
+        got_eps = _eps_of(strip_clamps(parts_[0]))
+        ctx.ob('C09.R3', fi.short, f'ridge inside {nm} {tag}', got_eps is not None and any(cmpr.same(strip_clamps(got_eps), w_) for w_ in want_eps),
+               f'the ridge added before the inverse power must be options.epsilon' + (' * max(l\'^2 + t\') (relative to the largest retained eigenvalue of the sketch)' if rel else '') +
+               f'; got `{cmpr.fmt(got_eps)[:160] if got_eps is not None else None}`', ctx.loc(fi), sample='eps = epsilon * max(undeflated)' if rel else 'eps = epsilon')
       pt = power_parts(rf['inv_tail'])
       okt = pt is not None and cmpr.same(_drop_eps(strip_clamps(pt[0])), t_new) and cmpr.same(pt[1], alpha_exp)
       ctx.ob('C09.R3', fi.short, f'inv_tail = (t\' + eps)^(-1/(2 ndim)) {tag}', okt,
@@ -738,6 +757,14 @@ def tearfree_sketchy(ctx):
       ctx.ob('C09.R4', fi.short, f'sketched matrix = [sqrt(b) V l, unfold(G)] {tag}', ok4,
              f'the factored matrix must be concatenate([V * l * sqrt(beta), gradient unfolded along `dim` (axis first, rest flattened)], axis=1); got `{show(S.args[1][0], maxdepth=6)[:240]}`',
              ctx.loc(fi), sample='[sqrt(b) V l, G_(dim)]')
+
+
+def _eps_of(t):
+  """the eps-like summand of x + eps (None when there is none)"""
+  rest = _drop_eps(t)
+  if rest is t or t.op != 'bin':
+    return None
+  return t.args[2] if rest is t.args[1] else t.args[1]
 
 
 def _drop_eps(t):
